@@ -62,6 +62,9 @@ class ClassInfo:
             v = self.assigns.get(n)
             if isinstance(v, ast.Constant) and not n.startswith('_'):
                 out[n] = v.value
+            elif isinstance(v, ast.UnaryOp) and isinstance(v.op, ast.USub) and isinstance(v.operand, ast.Constant) \
+                    and isinstance(v.operand.value, (int, float)) and not n.startswith('_'):
+                out[n] = -v.operand.value
         return out
 
     def method_kind(self, name: str) -> str:
